@@ -18,10 +18,10 @@ CLAIMED = {
          "Both directions of the iff are explored: generated valid histories (incl. non-terminating split factors) must not be rejected; each listed cause planted at a chosen row must be rejected with a message naming the row, the exact ledger prefix shown, the security excluded from totals, in text, CSV-writer and render-model modes.",
          "Reference model decides which histories contain a listed cause. One known finding (R5, rounding residue after chains of non-terminating splits) is excluded by a root-cause classifier.", "DESIGN.md section 4 C04"),
  "C07": ("exploration", "metamorphic property-based testing: generated input vs generated re-layout (files, columns, headers, unknown columns, admissible row permutation)",
-         "Each generated input is rendered once in canonical form and once re-laid-out (1-5 files, permuted/renamed/padded/absent/extra columns, legacy date header, CRLF, admissible row permutation); every cell of every table, footer, aggregate and costs table must agree.",
+         "Each generated input is rendered once in canonical form and once re-laid-out (1-5 files, permuted/renamed/padded/absent/extra columns, legacy date header, CRLF, admissible row permutation); every cell of every table, footer, aggregate and costs table must agree; file names out of text order, multi-line memos, trade dates moved where they cannot matter, and a half-filled rate cache are part of the re-layouts.",
          "Money figures are compared within 1e-9 and affiliate display spelling / note order are ignored (those are C09's business).", "DESIGN.md section 4 C07"),
  "C08": ("exploration", "metamorphic property-based testing: runs of A, B and A+B over disjoint securities, B optionally failing",
-         "Tables of each half must be identical in the combined run; aggregate(A+B) = aggregate(A) + aggregate(B) per year; a failure planted in B (every C04 cause, or a refused split combination) must not change or suppress A.",
+         "Tables of each half must be identical in the combined run; aggregate(A+B) = aggregate(A) + aggregate(B) per year; a failure planted in B (every C04 cause, or a refused split combination) must not change or suppress A; also from a half-filled rate cache, under --force-download over a wrong cache, and in the files of --csv-output-dir (share-class symbols included).",
          "Uses the C04 planting machinery to make B fail.", "DESIGN.md section 4 C08"),
  "C09": ("exploration", "repetition under varying hash seeds: k in-process runs plus the real main in separate processes, byte comparison",
          "The same generated input is run 6 (quick) / 16 (thorough) times in one process (fresh RandomState per HashMap) and through the real acb main in 4 separate processes; text, CSV-directory, total-costs and summary outputs must be byte-identical.",
@@ -30,7 +30,7 @@ CLAIMED = {
          "Every row of the original input must show the same figures under '-b SYM:n:c' and under a prepended Buy (n shares, total cost c, default affiliate, 400 days earlier); opening positions of absent symbols change nothing; malformed strings are rejected (library) and rejected before any file is opened (binary).",
          "Zero-share opening positions are compared with no purchase.", "DESIGN.md section 4 C16"),
  "C06": ("exploration", "property-based testing with exact re-summation of full-precision cells and a two-run (default vs full precision) differential",
-         "Yearly figures, table totals, aggregate years and 'Since inception' are recomputed exactly from the full-precision gain cells (by settlement year, error-free securities only); every money figure of the default rendering must equal the full-precision figure rounded half away from zero; text and CSV front ends must show the render model's cells.",
+         "Yearly figures, table totals, aggregate years and 'Since inception' are recomputed exactly from the full-precision gain cells (by settlement year, error-free securities only); every money figure of the default rendering must equal the full-precision figure rounded half away from zero; the text front end must show every cell line as often as the tables have it; the stream CSV writer and the real --csv-output-dir files (also when written over a longer earlier run) must hold exactly the tables.",
          "Figures are read from the render model (the web UI's source) with a tokenizer for $-amounts and '(x CUR)' amounts.", "DESIGN.md section 4 C06"),
  "C17": ("exploration", "property-based testing against an independent recomputation from the tool's own per-row ledger",
          "Total-costs and yearly-max tables are recomputed from the TxDeltas of the same run (default affiliate: day maximum, else closing cost of the most recent earlier day, else opening cost) and compared cell by cell; ties for a yearly maximum accept any tied day.",
@@ -45,16 +45,16 @@ CLAIMED = {
          "Calendars with holidays, exact gaps of 5-12 days, gaps across New Year, empty years and malformed observations are served as valet JSON; look-ups at gap edges, year edges and around today, and rows with every currency/rate combination, must get exactly the documented rate or an error.",
          "The fake endpoint follows the documented JSON schema; network-level failures are not explored.", "DESIGN.md section 4 C12"),
  "C13": ("exploration", "model-based (stateful) property-based testing: histories of runs and look-ups against a cache-free reference loader",
-         "Sequences of runs (own today, force flag, monotone remote data) and look-ups in any order share an in-memory cache and a real CSV cache directory; every answer must equal the answer of a fresh cache-free loader; downloads per (run, year) are counted.",
+         "Sequences of runs (own today, force flag, monotone remote data) and look-ups in any order share an in-memory cache and a real CSV cache directory; every answer must equal the answer of a fresh cache-free loader; downloads per (run, year) are counted. A second sub-check forces the download over a cache that holds a wrong value for every date: each look-up, in whatever year, must answer with the bank's rate.",
          "The remote always contains everything published before the run's today (premise of the property).", "DESIGN.md section 4 C13"),
  "C14": ("fault_enumeration", "exhaustive crash-point enumeration through feature-gated hooks (every byte offset and step boundary of the cache write) over generated year contents",
-         "For each generated year content and prior cache state the write is interrupted at every byte offset and every step (create, flush, sync, rename); a later run must never compute with a rate differing from the published one.",
+         "For each generated year content and prior cache state the write is interrupted at every byte offset and every step (create, flush, sync, rename); a later run must never compute with a rate differing from the published one: every post-crash answer is compared, date and rate, with the answer of a run that has no cache directory. Multi-run variants: crash then a shorter complete write, two crashes in a row, a crash then a complete run that only needs another year, first downloads of a completed year.",
          "Operations persist in program order; filesystems reordering un-synced writes are outside the model. Contents are sampled, crash points per content are exhaustive.", "DESIGN.md section 4 C14"),
  "C05": ("exploration", "property-based testing (structured-then-damaged CSV x options, domain-edge values) with a panic/abort oracle, plus coverage-guided libFuzzer targets in the thorough tier",
          "Valid generated inputs are damaged by 0-5 mutations (columns, cells, quoting, encoding, truncation) and combined with every option; fields at the edges of the stated numeric domain are combined in short histories; each run must return a report or a non-empty diagnostic naming a file, row, security or option, and never panic/abort (in-process hook + catch_unwind; a sample through the real binary).",
          "'Never loops' is only observable through the watchdog (inconclusive, not a violation). Two panics are recorded as known findings (F-05c product overflow, F-05e division overflow on rounding residue).", "DESIGN.md section 4 C05"),
  "C10": ("exploration", "round-trip property-based testing: history -> summary CSV (text) -> re-run with the later rows, compared row by row with the full run",
-         "Error-free histories x every interesting cut date x both summary modes; the summary is written to CSV text, fed back with the rows settling after the cut, and every later row, the final holdings and (annual) the yearly net gains must agree with the full run.",
+         "Error-free histories x every interesting cut date x both summary modes; the summary is written to CSV text, fed back with the rows settling after the cut (histories include declared / forced superficial losses, years netting to zero, late-starting affiliates), and every later row, the final holdings and (annual) the yearly net gains must agree with the full run.",
          "One known finding (K3, annual loss rows hit by the 30-day rule) is excluded by a classifier on its direct root-cause observation; rounding-residue cases (R5) by theirs.", "DESIGN.md section 4 C10"),
  "C18": ("exploration", "property-based testing against the generator's own record (multiset equality, exact cash conservation) plus a layout metamorphic relation",
          "Generated well-formed Questrade exports (all activity kinds, FXT pairs, accounts, currencies, alias symbol) in generated column layouts (permuted, extra, blank-headed, numeric cells) go through sheet_to_txs in memory and, for a sample, through a real .xlsx and run_with_args with its options; emitted rows, the signed USD.FX total, layout independence, ordering and acceptance by acb are checked.",
